@@ -525,9 +525,13 @@ def to_model(data_file: typing.IO, _config = None, progress_callback=lambda _: N
     if state in (_State.TEXT, _State.TEXT_MORE):
 
       if line is None or _EMPTY_RE.fullmatch(line):
-        subtitle_text = subtitle_text.strip('\r\n').replace(r"\n\r", "\n")
+        if state is _State.TEXT:
+          # cue without payload
+          div.push_child(current_p)
+        else:
+          subtitle_text = subtitle_text.replace("\r\n", "\n").strip('\r\n')
 
-        _parse_cue_text(subtitle_text, current_p, line_index)
+          _parse_cue_text(subtitle_text, current_p, line_index)
 
         state = _State.LOOKING
         continue
